@@ -47,9 +47,9 @@ META = dict(
 )
 
 CONSTS = {
-    "quick": dict(check="IdentityConstraints.quick.cfg", gens=["IdentityConstraintsGen.quick.cfg", "IdentityConstraintsGen.quick2.cfg", "IdentityConstraintsGen.quick3.cfg"],
+    "quick": dict(checks=["IdentityConstraints.quick.cfg", "IdentityConstraints.quick2.cfg"], gens=["IdentityConstraintsGen.quick.cfg", "IdentityConstraintsGen.quick2.cfg", "IdentityConstraintsGen.quick3.cfg"],
                   large=[(40, 1, "step"), (300, 2, "decl")], nproc=4),
-    "thorough": dict(check="IdentityConstraints.thorough.cfg", gens=["IdentityConstraintsGen.thorough.cfg"],
+    "thorough": dict(checks=["IdentityConstraints.thorough.cfg", "IdentityConstraints.thorough2.cfg"], gens=["IdentityConstraintsGen.thorough.cfg"],
                      large=[(60, 1, "step"), (120, 5, "step"), (400, 2, "decl"), (400, 3, "decl"), (1000, 4, "decl")], nproc=8),
 }
 
@@ -95,17 +95,28 @@ def run(out, tier):
     exe = C.build_harness("ic_harness")
     cov = out.coverage
     # 1. the specification satisfies C10: streaming machine = declarative definition, verdict independent of sibling order
-    r = C.tlc("IdentityConstraintsMC", k["check"], workers=8, coverage=True, timeout=9000, heap="8g")
-    C.tlc_must_pass(r, "IdentityConstraintsMC/" + k["check"])
-    cov["states"] = r.distinct
-    cov["transitions"] = r.generated
-    cov["spec_check"] = r.summary()
-    cov["checker_cmd"] = r.cmd
-    cov["spec_action_coverage"] = dict(r.coverage)
-    never = [a for a, v in r.coverage.items() if v[0] == 0]
+    cov["states"] = cov["transitions"] = 0
+    cov["spec_checks"] = []
+    cov["spec_action_coverage"] = {}
+    zero = 0
+    for cfg in k["checks"]:
+        r = C.tlc("IdentityConstraintsMC", cfg, workers=8, coverage=True, timeout=20000, heap="8g")
+        C.tlc_must_pass(r, "IdentityConstraintsMC/" + cfg)
+        cov["states"] += r.distinct
+        cov["transitions"] += r.generated
+        cov["spec_checks"].append(dict(cfg=cfg, **r.summary()))
+        cov["checker_cmd"] = r.cmd
+        for a, v in r.coverage.items():
+            w = cov["spec_action_coverage"].setdefault(a, [0, 0])
+            w[0] += v[0]
+            w[1] += v[1]
+        # sub-expressions of the actions that TLC never evaluated (vacuity of a branch of the operational layer)
+        zero += len(set(ln for ln in r.text if ln.rstrip().endswith("of module IdentityConstraints: 0")))
+    never = [a for a, v in cov["spec_action_coverage"].items() if v[0] == 0]
     if never:
-        C.log("specification actions never taken in the exhaustive config:", never)
+        C.log("specification actions never taken in the exhaustive configs:", never)
     cov["spec_actions_never_taken"] = never
+    cov["spec_expressions_never_evaluated"] = zero
     # 2. T: every enumerated case on the real validators
     total = {}
     samples = []
@@ -148,7 +159,7 @@ def run(out, tier):
     cov["rule"] = ("T: every (constraint set, field type, well-formed tree) of the families of IdentityConstraintsMC.tla within the length cap "
                    "(distinct by construction), each validated by 4 parser configurations; non-trivial = the declarative layer finds at "
                    "least one violation (the valid ones are counted in T.expected_valid)")
-    out.assumptions += ["families and bounds of spec/IdentityConstraintsMC.tla with the cfg files " + ", ".join([k["check"]] + k["gens"]),
+    out.assumptions += ["families and bounds of spec/IdentityConstraintsMC.tla with the cfg files " + ", ".join(k["checks"] + k["gens"]),
                         "renderer tables of harness/ic_harness.cpp; IC_* code -> kind table; sets of kinds are compared",
                         "kinds listed in `maybe` (after a multiply matched field; keyref errors after a violated key) are not compared"]
 
